@@ -6,6 +6,7 @@ mod conn_gen;
 mod codec;
 mod frame;
 mod gates;
+mod pair;
 mod rng;
 mod tables;
 
@@ -28,6 +29,7 @@ fn main() {
         "alloc" => alloc::generate(tier, seed, &mut out),
         "frame" => frame::generate(tier, seed, &mut out),
         "gates" => gates::generate(tier, seed, &mut out),
+        "pair" => pair::generate(tier, seed, &args[4.min(args.len())..], &mut out),
         "conn" => conn_gen::generate(tier, seed, &args[4.min(args.len())..], &mut out),
         "tables" => tables::generate(tier, seed, &mut out),
         "codec" => codec::generate(tier, seed, &mut out),
